@@ -117,6 +117,7 @@ class DefClosure:
 
     def __init__(self, node, env, func):
         self.node, self.env, self.func = node, env, func
+        self.attrs = {}          # function attributes (f._dinfo = ...)
 
     def __repr__(self):
         return "<nested function %s>" % self.node.name
@@ -513,6 +514,8 @@ class Interp:
                         self.invoke(st_, [v], {}, base)
                         return
                 base.attrs[target.attr] = v
+            elif isinstance(base, DefClosure):
+                base.attrs[target.attr] = v
             else:
                 raise Unsupported("attribute store on %r" % (base,))
         else:
@@ -594,6 +597,9 @@ class Interp:
             if isinstance(b, set) and isinstance(a, (str, int)):
                 r = a in b
                 return r if isinstance(op, ast.In) else (not r)
+            if isinstance(b, set) and isinstance(a, tuple) and _hashable_key(a) and not any(isinstance(x, Obj) for x in a):
+                r = a in b
+                return r if isinstance(op, ast.In) else (not r)
             if isinstance(b, Obj) and "__contains__" in b.attrs and isinstance(a, (str, int)):
                 r = a in b.attrs["__contains__"]
                 return r if isinstance(op, ast.In) else (not r)
@@ -662,6 +668,8 @@ class Interp:
             return TOP
         if isinstance(e, ast.Attribute):
             base = self.eval(e.value, env, f)
+            if isinstance(base, DefClosure):
+                return base.attrs.get(e.attr, TOP)
             if isinstance(base, Obj):
                 if e.attr not in base.attrs and "__cls__" in base.attrs:
                     # an object of a repo class: properties are evaluated, methods become bound references
@@ -791,7 +799,7 @@ class Interp:
                 except IndexError:
                     raise _Raise("IndexError")
             if isinstance(base, dict) and isinstance(key, tuple) and all(isinstance(x, (str, int, type(None))) for x in key):
-                if key in base:
+                if key in base or isinstance(base, _collections.defaultdict):
                     return base[key]
                 raise _Raise("KeyError")
             if isinstance(base, (tuple, list)) and isinstance(key, int):
@@ -857,6 +865,11 @@ class Interp:
                     return TOP
                 d[k] = v
             return d
+        if isinstance(e, ast.SetComp):
+            items = self.eval(ast.ListComp(elt=e.elt, generators=e.generators), env, f)
+            if items is TOP or not all(_hashable_key(x) and not isinstance(x, Obj) for x in items):
+                return TOP           # only sets of constants / tuples of constants and ids are modelled
+            return set(items)
         if isinstance(e, (ast.ListComp, ast.GeneratorExp, ast.DictComp, ast.SetComp)):
             return TOP
         if isinstance(e, ast.BinOp):
@@ -949,6 +962,8 @@ class Interp:
                 return False if any(t is False for t in ts) else (TOP if any(t is TOP for t in ts) else True)
             if n == "id" and len(args) == 1 and isinstance(args[0], (Obj, Record, Sized)):
                 return ("id", id(args[0]))
+            if n == "id" and len(args) == 1 and args[0] is None:
+                return ("id", 0)
             if n == "callable":
                 v = args[0]
                 if v is TOP:
@@ -1047,6 +1062,26 @@ class Interp:
                         return args[2]
                     return TOP
                 return TOP
+            if n in ("groupby", "itertools.groupby") and args and isinstance(args[0], (list, tuple)):
+                # consecutive runs of equal keys, as itertools.groupby does
+                keyf = kwargs.get("key", args[1] if len(args) > 1 else None)
+                runs = []
+                for item in args[0]:
+                    if keyf is None:
+                        k = item
+                    elif isinstance(keyf, Closure) and len(keyf.node.args.args) == 1:
+                        sub = dict(keyf.env)
+                        sub[keyf.node.args.args[0].arg] = item
+                        k = self.eval(keyf.node.body, sub, keyf.func)
+                    else:
+                        return TOP
+                    if k is TOP:
+                        return TOP
+                    if runs and (runs[-1][0] is k or (not isinstance(k, Obj) and runs[-1][0] == k)):
+                        runs[-1][1].append(item)
+                    else:
+                        runs.append((k, [item]))
+                return runs
             if n == "reversed" and len(args) == 1 and isinstance(args[0], (list, tuple)):
                 return list(reversed(args[0]))
             if n == "zip":
